@@ -16,7 +16,8 @@ LEAN_MODULES = ["Barril.Props.C10"]
 DRIVERS = ["drv_ops"]
 DRIVER_EXE = "drv_ops"
 RULE = ("pairs of quantities of the default POSC database (identical; one quantity type with two units; two categories of "
-        "one type; different types; derived normal/twin/mixed/zero-exponent; the empty quantity) x 3x3 container kinds x "
+        "one type; different types; derived normal/twin/mixed/zero-exponent; derived operands holding offset units (degC, degF, "
+        "psig ...) at exponent 1 and != 1 against other units of the type; simple offset-unit operands; the empty quantity) x 3x3 container kinds x "
         "{+,-,*,/,//} x lengths 0..6, plus pairs of different lengths (0/1/n against m), int and float elements, zero "
         "divisors in float slots; Scalar op Scalar on the same pairs; Array.FromScalars (same unit, mixed units, foreign "
         "types, empty) followed by indexing every position; Array.GetValues / Scalar.GetValue to every kind of target "
@@ -41,7 +42,7 @@ def _pairs(ctx, rng, n):
     """quantity pairs by relation"""
     out = []
     for i in range(n):
-        r = i % 8
+        r = i % 11
         q1 = oc.simple_q(ctx, rng)
         c, u, _ = q1[0]
         qt = ctx.db.GetCategoryQuantityType(c)
@@ -59,10 +60,23 @@ def _pairs(ctx, rng, n):
         elif r == 6:
             q1 = oc.derived_q(ctx, rng)
             q2 = oc.simple_q(ctx, rng) if rng.random() < 0.5 else oc.derived_q(ctx, rng)
-        else:
+        elif r == 7:
             q1 = oc.derived_q(ctx, rng, "normal")
             # the same dimension written with other units
-            q2 = [[cc, rng.choice(ctx.linear[ctx.db.GetCategoryQuantityType(cc)]), e] for cc, _u, e in q1]
+            q2 = [[cc, rng.choice(ctx.units[ctx.db.GetCategoryQuantityType(cc)]), e] for cc, _u, e in q1]
+        elif r in (8, 9):
+            # derived operands holding a unit with an offset (degC, degF, psig ...) at exponent 1 or another one,
+            # the other operand with another unit of that type: scaled, never shifted (repair 1e63d4c)
+            q1 = oc.affine_q(ctx, rng, mixed=(r == 9 and rng.random() < 0.3))
+            q2 = oc.other_units(ctx, rng, q1)
+            if rng.random() < 0.3:
+                q1, q2 = q2, q1
+        else:
+            # simple operands of a type with offset units: the plain conversion (shifted)
+            qt = rng.choice(ctx.affine_qtypes)
+            cc = rng.choice(ctx.cats[qt])
+            q1 = [[cc, rng.choice(ctx.units[qt]), 1]]
+            q2 = oc.other_units(ctx, rng, q1)
         out.append((q1, q2))
     out += [([], []), (oc.simple_q(ctx, rng), []), ([], oc.simple_q(ctx, rng))]  # the empty quantity
     return [(a, b) for a, b in out if oc.buildable(oc.scalar_spec(a, 1.0)) and oc.buildable(oc.scalar_spec(b, 1.0))]
@@ -75,9 +89,8 @@ def _vals(rng, n, f, divisor):
 
 
 def _gen_binops(ctx, rng, npairs, lengths, n_mismatch):
-    for q1, q2_ in _pairs(ctx, rng, npairs):
+    for q1, q2 in _pairs(ctx, rng, npairs):
         for f in oc.OPS:
-            q2 = oc.tame(ctx, f, q1, q2_)
             # the Scalar operator on this pair
             yield oc.binop_case(f, oc.scalar_spec(q1, oc.rand_value(rng)),
                                 oc.scalar_spec(q2, oc.rand_value(rng, nonzero=rng.random() < 0.97)))
